@@ -126,6 +126,7 @@ def run(ctx):
     for _ in range(reps):
         for name, f, args in function_cases(sp, rng):
             lay = [layouts(a, rng) for a in args]
+            first = None
             for k in range(max(len(l) for l in lay)):
                 cur = [l[min(k, len(l) - 1)][1] for l in lay]
                 tag = "/".join(l[min(k, len(l) - 1)][0] for l in lay)
@@ -145,10 +146,21 @@ def run(ctx):
                 same = all(np.array_equal(np.asarray(a), np.asarray(b)) for a, b in zip(flat(o1), flat(o2)))
                 if not same:
                     bad.setdefault("determinism:" + name, ("%s returned different results on equal inputs" % name, {"function": name, "layout": tag}))
+                # equal VALUES in another memory layout (Fortran order, strided view) must give equal results
+                if first is None:
+                    first = o1
+                else:
+                    for a, b in zip(flat(first), flat(o1)):
+                        a, b = np.asarray(a), np.asarray(b)
+                        if a.shape != b.shape or not np.allclose(a, b, rtol=1e-6 if a.dtype in (np.complex64, np.float32) else 1e-10, atol=1e-9):
+                            bad.setdefault("layout:" + name, ("%s gives a different result for the same values stored in layout %s" % (name, tag),
+                                                              {"function": name, "layout": tag}))
+                            break
         for name, p, sh, captured in prox_cases(sp, rng):
             x = (np.array([rng.uniform(-1, 1) for _ in range(int(np.prod(sh)))]) + 1j * np.array([rng.uniform(-1, 1) for _ in range(int(np.prod(sh)))])).reshape(sh)
             if name == "PsdProj":
                 x = x + x.conj().T
+            firstp = None
             for tag, xv in layouts(x, rng):
                 snaps = snapshot([xv] + captured)
                 try:
@@ -163,6 +175,11 @@ def run(ctx):
                     bad.setdefault("mutation:prox." + name, ("prox %s modified its input or an array it was built from" % name, {"prox": name, "layout": tag}))
                 if not np.array_equal(o1, o2):
                     bad.setdefault("determinism:prox." + name, ("prox %s not deterministic" % name, {"prox": name}))
+                if firstp is None:
+                    firstp = np.asarray(o1)
+                elif firstp.shape != np.asarray(o1).shape or not np.allclose(firstp, o1, rtol=1e-10, atol=1e-10):
+                    bad.setdefault("layout:prox." + name, ("prox %s gives a different result for the same values stored in layout %s" % (name, tag),
+                                                           {"prox": name, "layout": tag}))
     # dedicated stream: Conj / scaling / stacking of genuinely complex operators applied to arrays stored in a REAL dtype
     from vlib import lingen
     for k in range(ctx.n(60, 1500)):
